@@ -36,7 +36,11 @@ def _comp_ok(k, v, comp):
 
 def _check_roundtrip(sf) -> bool:
     global LAST
+    before = (list(sf.items()), [list(c.items()) for c in sf.charts])
     stream, text, gaps, idxs = record(sf)
+    if before != (list(sf.items()), [list(c.items()) for c in sf.charts]):
+        LAST = ("serializing changed the simfile (keys, order or values)",)
+        return False
     items = list(sf.items())
     LAST = ("stream", stream)
     if idxs != list(range(len(stream))) or not gaps_blank(gaps):
